@@ -164,7 +164,9 @@ type Pipe struct {
 	libClose time.Duration
 	dropped  time.Duration
 	hold     bool
-	recvWait int // library goroutines parked in Recv
+	lateOK   bool // a held Send completes successfully although the pipe was dropped meanwhile
+	lateHold bool // ... but not before ReleaseLate
+	recvWait int  // library goroutines parked in Recv
 	sendWait int
 	opts     map[string]interface{}
 	maxrx    int
@@ -185,11 +187,16 @@ func (p *Pipe) Send(m *mangos.Message) error {
 	p.mu.Lock()
 	defer p.mu.Unlock()
 	p.sendWait++
-	for p.hold && !p.closed {
+	held := false
+	for (p.hold && !p.closed) || (p.lateOK && held && p.lateHold) {
+		held = true
 		p.cv.Wait()
 	}
 	p.sendWait--
-	if p.closed {
+	if p.closed && !(p.lateOK && held) {
+		if p.dropped != 0 && p.libClose == 0 {
+			return errVTClosed // the peer went away: stream transports report a plain I/O error, not ErrClosed
+		}
 		return mangos.ErrClosed
 	}
 	s := Sent{Seq: len(p.sent), T: t, Pipe: p,
@@ -210,6 +217,9 @@ func (p *Pipe) Recv() (*mangos.Message, error) {
 	}
 	p.recvWait--
 	if p.closed {
+		if p.dropped != 0 && p.libClose == 0 {
+			return nil, errVTClosed
+		}
 		return nil, mangos.ErrClosed
 	}
 	b := p.rq[0]
@@ -312,6 +322,19 @@ func (p *Pipe) Drop() time.Duration {
 	p.mu.Unlock()
 	return t
 }
+
+// DropLateSendOK closes the pipe from the peer side like Drop, but a Send that is held at that moment
+// completes successfully once the library has noticed the loss: the bytes had already left when the
+// connection went (a write that is reported successful although the pipe is gone by then).
+func (p *Pipe) DropLateSendOK() time.Duration {
+	p.mu.Lock()
+	p.lateOK, p.lateHold = true, true
+	p.mu.Unlock()
+	return p.Drop()
+}
+
+// ReleaseLate lets the Send held across DropLateSendOK return (successfully).
+func (p *Pipe) ReleaseLate() { p.mu.Lock(); p.lateHold = false; p.cv.Broadcast(); p.mu.Unlock() }
 
 // HoldSends makes Send block (slow or silent peer) until ReleaseSends.
 func (p *Pipe) HoldSends()    { p.mu.Lock(); p.hold = true; p.mu.Unlock() }
